@@ -288,6 +288,7 @@ pub trait Caps: H {
 pub enum Op {
     Push(usize, u32, U),
     Probe(usize),
+    ProbeOwned(usize),
     Read(usize),
     Clear(usize),
     Merge(usize, Vec<usize>),
@@ -344,6 +345,7 @@ pub fn parse_op(s: &str) -> Result<Op, String> {
     Ok(match p.as_slice() {
         ["push", k, f, v] => Op::Push(n(k)?, u32::from_str_radix(f, 16).map_err(|e| e.to_string())?, U::parse(v)?),
         ["probe", k] => Op::Probe(n(k)?),
+        ["probeo", k] => Op::ProbeOwned(n(k)?),
         ["read", k] => Op::Read(n(k)?),
         ["clear", k] => Op::Clear(n(k)?),
         ["merge", d, ks] => Op::Merge(n(d)?, ints(ks)?),
@@ -363,7 +365,7 @@ pub fn parse_op(s: &str) -> Result<Op, String> {
     })
 }
 
-pub const NSLOTS: usize = 3;
+pub const NSLOTS: usize = 4;
 
 struct Slot<R: Region> {
     r: R,
@@ -413,11 +415,27 @@ pub fn run_entry<R: Caps>(ops: &[Op]) -> Vec<Vec<Obs>> {
                     })
                     .collect()
             }
+            Op::ProbeOwned(k) => {
+                let s = &slots[*k];
+                s.log
+                    .iter()
+                    .map(|i| {
+                        match caught(|| {
+                            let o = s.r.index(*i).into_owned();
+                            let it: R::ReadItem<'_> = IntoOwned::borrow_as(&o);
+                            R::probe(it)
+                        }) {
+                            Some(v) => Obs::Val(v),
+                            None => Obs::Panic,
+                        }
+                    })
+                    .collect()
+            }
             Op::Read(k) => {
                 let s = &slots[*k];
                 s.log
                     .iter()
-                    .map(|i| match caught(|| R::to_u(&s.r.index(*i).into_owned())) {
+                    .map(|i| match caught(|| R::to_u(&R::reborrow(s.r.index(*i)).into_owned())) {
                         Some(v) => Obs::Val(v),
                         None => Obs::Panic,
                     })
